@@ -1,11 +1,256 @@
-"""Shared view of Application.dispatch for C06 / C07 / C08 / C12: the loop, its roles, its CFG."""
+"""Shared view of Application.dispatch for C06 / C07 / C08 / C12: the loop, its roles, its CFG.
+
+The roles (path match, method test, execute, redirect, dispatch state) are located by *what the code does* -- the
+call ``<loop var>.match_path(..)``, the place where the result of ``<loop var>.match_method(..)`` is tested,
+the statement binding ``<loop var>.execute(..)`` -- not by the shape of the statements around them.  Path
+conditions are the CFG's ``conds_at`` plus *reaching-definition refinement* (``refine_conds``): a comparison on a
+local that can only be true for one of the local's definitions implies that definition's own path conditions
+and the comparison on the defining expression.
+"""
 import ast
+import copy
 
 from ..core import AnalysisError, norm, short
+from ..astutil import names_stored, assigned_value
 from .common import cfg_of, conds, has_cond, stmts_of, walk_body, call_tail, call_name, stmt_of
 
 APP = 'clastic.application'
 ROUTE = 'clastic.route'
+
+_UNDECIDED = object()
+
+
+def run_group(rep, fn, *args, **kw):
+    """Run one group of rules.  "Could not analyse" (AnalysisError, or an unexpected exception inside the rule code) is
+    recorded as an analysis gap of this group; the other groups still run and report."""
+    try:
+        return fn(*args, **kw)
+    except AnalysisError as e:
+        rep.gaps.append('%s: %s' % (getattr(fn, '__name__', 'rule group'), e))
+    except Exception:
+        import traceback
+        rep.gaps.append('%s: internal error in checker: %s' % (getattr(fn, '__name__', 'rule group'), traceback.format_exc()[-400:]))
+    return None
+
+
+def none_test(t, name):
+    """``name is None`` / ``None is name`` / ``name == None`` -> 'is'; the negated comparisons -> 'isnot'; else None."""
+    if isinstance(t, ast.Compare) and len(t.ops) == 1:
+        a, b = t.left, t.comparators[0]
+        if isinstance(a, ast.Constant) and a.value is None:
+            a, b = b, a
+        if norm(a) == name and isinstance(b, ast.Constant) and b.value is None:
+            if isinstance(t.ops[0], (ast.Is, ast.Eq)):
+                return 'is'
+            if isinstance(t.ops[0], (ast.IsNot, ast.NotEq)):
+                return 'isnot'
+    return None
+
+
+def strip_not(t, p=True):
+    while isinstance(t, ast.UnaryOp) and isinstance(t.op, ast.Not):
+        t, p = t.operand, not p
+    return t, p
+
+
+def _is_simple_value(e):
+    if isinstance(e, (ast.Name, ast.Constant)):
+        return True
+    if isinstance(e, ast.Attribute):
+        return _is_simple_value(e.value)
+    return False
+
+
+def resolve_local(fnode, e, depth=0):
+    """Follow a local of ``fnode`` that has exactly one binding, a plain assignment (tuple unpacking of a tuple display
+    included), to the expression it names; parameters and re-bound locals are left as they are."""
+    a = fnode.args
+    params = set(x.arg for x in a.posonlyargs + a.args + a.kwonlyargs) | set(x.arg for x in (a.vararg, a.kwarg) if x)
+    while isinstance(e, ast.Name) and depth < 6:
+        av = assigned_value(fnode, e.id)
+        if len(av) != 1 or e.id in params:
+            break
+        st, val, idx = av[0]
+        if not isinstance(st, ast.Assign):
+            break
+        if idx is None:
+            nxt = val
+        elif isinstance(idx, int) and isinstance(val, (ast.Tuple, ast.List)) and len(val.elts) > idx and \
+                not any(isinstance(x, ast.Starred) for x in val.elts):
+            nxt = val.elts[idx]
+        else:
+            break
+        e = nxt
+        depth += 1
+    return e
+
+
+class Defs(object):
+    """Definitions of the plain locals of one function, on its CFG."""
+
+    def __init__(self, cfg, fnode):
+        self.cfg, self.fnode = cfg, fnode
+        a = fnode.args
+        self.params = set(x.arg for x in a.posonlyargs + a.args + a.kwonlyargs)
+        if a.vararg:
+            self.params.add(a.vararg.arg)
+        if a.kwarg:
+            self.params.add(a.kwarg.arg)
+        self._cache = {}
+
+    def of(self, name):
+        """([(stmt, [node ids])], clean).  ``clean`` is False when the local is (also) bound by something that is not a
+        plain ``name = value`` statement (parameter, loop target, unpacking, ``as``, walrus, augmented assignment)."""
+        if name in self._cache:
+            return self._cache[name]
+        cfg = self.cfg
+        by_stmt, order = {}, []
+        clean = name not in self.params
+        for nd in cfg.nodes:
+            st = nd.stmt
+            if nd.kind == 'handler':
+                if nd.handler is not None and nd.handler.name == name:
+                    clean = False
+                continue
+            if st is None or nd.kind not in ('stmt', 'head'):
+                continue
+            if nd.kind == 'head':
+                if isinstance(st, (ast.For, ast.AsyncFor)):
+                    stored = names_stored(st.target) | names_stored(st.iter)
+                elif isinstance(st, (ast.With, ast.AsyncWith)):
+                    stored = set()
+                    for it in st.items:
+                        stored |= names_stored(it.context_expr)
+                        if it.optional_vars is not None:
+                            stored |= names_stored(it.optional_vars)
+                elif isinstance(st, (ast.If, ast.While)):
+                    stored = names_stored(st.test)
+                elif isinstance(st, ast.Match):
+                    stored = names_stored(st)
+                else:
+                    stored = set()
+                if name in stored:
+                    clean = False
+                continue
+            if isinstance(st, (ast.FunctionDef, ast.AsyncFunctionDef, ast.ClassDef)):
+                if st.name == name:
+                    clean = False
+                continue
+            if isinstance(st, (ast.Import, ast.ImportFrom)):
+                if any((a_.asname or a_.name).split('.')[0] == name for a_ in st.names):
+                    clean = False
+                continue
+            if isinstance(st, ast.Assign) and len(st.targets) == 1 and isinstance(st.targets[0], ast.Name) and \
+                    st.targets[0].id == name and name not in names_stored(st.value):
+                if id(st) not in by_stmt:
+                    by_stmt[id(st)] = (st, [])
+                    order.append(id(st))
+                by_stmt[id(st)][1].append(nd.id)
+            elif name in names_stored(st):
+                clean = False
+        res = ([by_stmt[k] for k in order], clean)
+        self._cache[name] = res
+        return res
+
+    def reaching(self, name, node):
+        """Definitions of ``name`` that can be the most recent one when control is at ``node``:
+        [(stmt, value, mid)] with ``mid`` = the nodes between that (last) execution of the definition and ``node``;
+        None when the local is not cleanly defined."""
+        ds, clean = self.of(name)
+        if not clean or not ds:
+            return None
+        cfg = self.cfg
+        all_ids = set(i for _, ids in ds for i in ids)
+        out = []
+        for st, ids in ds:
+            after = [m for i in ids for m in cfg.succ[i] if (i, m) not in cfg.exc_edges]
+            fwd = cfg.reach(after, avoid=all_ids - {node})
+            if node not in fwd:
+                continue
+            mid = (fwd & cfg.coreach([node], avoid=all_ids - {node})) - {node}
+            out.append((st, st.value, mid))
+        return out
+
+
+def _static_compare(val, other, op, fold):
+    """Outcome of ``val <op> other`` when it can be told from the two expressions alone, else _UNDECIDED."""
+    eq = isinstance(op, (ast.Eq, ast.Is))
+    if not isinstance(op, (ast.Eq, ast.Is, ast.NotEq, ast.IsNot)):
+        return _UNDECIDED
+    if _is_simple_value(val) and not isinstance(val, ast.Constant) and norm(val) == norm(other):
+        return eq
+    if isinstance(val, ast.Constant):
+        c2 = other.value if isinstance(other, ast.Constant) else fold(other)
+        if c2 is _UNDECIDED:
+            return _UNDECIDED
+        c1 = val.value
+        if isinstance(op, (ast.Is, ast.IsNot)) and not (c1 is None or c2 is None):
+            return _UNDECIDED
+        if c1 is None or c2 is None:
+            same = c1 is None and c2 is None
+        elif type(c1) in (str, int, bool, bytes) and type(c2) in (str, int, bool, bytes):
+            same = c1 == c2
+        else:
+            return _UNDECIDED
+        return same if eq else not same
+    return _UNDECIDED
+
+
+def refine_conds(cfg, defs, node, cs, fold, rounds=4):
+    """Reaching-definition refinement of path conditions.
+
+    For a condition ``v <op> e`` (== / != / is / is not, v a plain local) known with polarity p at ``node``: every
+    definition ``v = val`` that may reach ``node`` and for which ``val <op> e`` is statically the opposite of p is
+    ruled out (``canonical = url_path ... canonical == url_path`` is not False; ``mode = None ... mode == S_REDIRECT``
+    is not True).  If exactly one definition remains, the conditions under which that definition runs hold at
+    ``node`` too, and so does the comparison on its defining expression -- provided nothing in between re-binds a
+    name those expressions read."""
+    out = list(cs)
+    known = set((norm(t), p) for t, p in out)
+    work = list(cs)
+    for _ in range(rounds):
+        new = []
+        for t, p in work:
+            t, p = strip_not(t, p)
+            if not (isinstance(t, ast.Compare) and len(t.ops) == 1 and isinstance(t.ops[0], (ast.Eq, ast.NotEq, ast.Is, ast.IsNot))):
+                continue
+            sides = [(t.left, t.comparators[0], 'l'), (t.comparators[0], t.left, 'r')]
+            for side, other, which in sides:
+                if not isinstance(side, ast.Name):
+                    continue
+                rd = defs.reaching(side.id, node)
+                if not rd:
+                    continue
+                keep = []
+                for st, val, mid in rd:
+                    o = _UNDECIDED
+                    if not cfg._kills(val, mid) and not cfg._kills(other, mid):
+                        o = _static_compare(val, other, t.ops[0], fold)
+                    if o is _UNDECIDED or o is p:
+                        keep.append((st, val, mid))
+                if len(keep) != 1:
+                    continue
+                st, val, mid = keep[0]
+                if not cfg._kills(val, mid):
+                    v2 = copy.deepcopy(val)
+                    sub = ast.Compare(left=v2 if which == 'l' else t.left, ops=[t.ops[0]],
+                                      comparators=[t.comparators[0] if which == 'l' else v2])
+                    ast.copy_location(sub, t)
+                    ast.fix_missing_locations(sub)
+                    new.append((sub, p))
+                for t2, p2 in cfg.conds_at_stmt(st):
+                    if not cfg._kills(t2, mid):
+                        new.append((t2, p2))
+        work = []
+        for t, p in new:
+            k = (norm(t), p)
+            if k not in known:
+                known.add(k)
+                out.append((t, p))
+                work.append((t, p))
+        if not work:
+            break
+    return out
 
 
 class DispatchView(object):
@@ -14,46 +259,149 @@ class DispatchView(object):
         self.app = repo.mod(APP)
         self.fi = self.app.func('Application.dispatch')
         self.cfg = cfg_of(self.fi)
+        self.defs = Defs(self.cfg, self.fi.node)
+        self._bc = {}
         f = self.fi.node
-        loops = [s for s in stmts_of(f) if isinstance(s, ast.For) and 'routes' in norm(s.iter)]
+        ps = self.fi.params()
+        self.request = ps[1] if len(ps) > 1 else 'request'
+        loops = [s for s in stmts_of(f) if isinstance(s, ast.For) and 'routes' in norm(self.resolve(s.iter))]
         if len(loops) != 1:
             raise AnalysisError('Application.dispatch: the single loop over routes was not found')
         self.loop = loops[0]
+        if not isinstance(self.loop.target, ast.Name):
+            raise AnalysisError('Application.dispatch: the route loop does not bind a plain loop variable')
         self.route_var = norm(self.loop.target)
+        self.iter_expr = self.resolve(self.loop.iter)
         self.head = self.cfg.nodes_of(self.loop)
         self.iter_nodes = [n.id for n in self.cfg.nodes if n.kind == 'iter' and n.stmt is self.loop]
         self.exhaust_nodes = [n.id for n in self.cfg.nodes if n.kind == 'exhaust' and n.stmt is self.loop]
         rv = self.route_var
 
-        def one(pred, what):
-            xs = [s for s in stmts_of(f) if pred(s)]
+        def one_call(attr, what):
+            xs = [c for c in walk_body(f) if isinstance(c, ast.Call) and norm(c.func) == '%s.%s' % (rv, attr)]
             if len(xs) != 1:
                 raise AnalysisError('Application.dispatch: expected exactly one %s, found %d' % (what, len(xs)))
             return xs[0]
-        self.match_st = one(lambda s: isinstance(s, ast.Assign) and isinstance(s.value, ast.Call)
-                            and norm(s.value.func) == '%s.match_path' % rv, 'route.match_path assignment')
-        self.pp_var = norm(self.match_st.targets[0])
-        self.method_st = one(lambda s: isinstance(s, ast.Assign) and isinstance(s.value, ast.Call)
-                             and norm(s.value.func) == '%s.match_method' % rv, 'route.match_method assignment')
-        self.ma_var = norm(self.method_st.targets[0])
-        self.exec_st = one(lambda s: isinstance(s, ast.Assign) and isinstance(s.value, ast.Call)
-                           and norm(s.value.func) == '%s.execute' % rv, 'route.execute assignment')
-        self.ret_var = norm(self.exec_st.targets[0])
+
+        def bound_name(call, what):
+            st = stmt_of(self.app, call)
+            if not (isinstance(st, ast.Assign) and st.value is call and len(st.targets) == 1 and isinstance(st.targets[0], ast.Name)):
+                raise AnalysisError('Application.dispatch: the result of %s is not bound to a local' % what)
+            return st, st.targets[0].id
+        self.match_call = one_call('match_path', 'route.match_path call')
+        self.match_st, self.pp_var = bound_name(self.match_call, 'route.match_path(...)')
+        self.exec_call = one_call('execute', 'route.execute call')
+        self.exec_st, self.ret_var = bound_name(self.exec_call, 'route.execute(...)')
+        # the method test: usually one call; when there are several, the one whose outcome guards execute is "the" test,
+        # the others are still recognised as method tests by the predicates below
+        self.method_calls = [c for c in walk_body(f) if isinstance(c, ast.Call) and norm(c.func) == '%s.match_method' % rv]
+        if not self.method_calls:
+            raise AnalysisError('Application.dispatch: expected a route.match_method call, found none')
+        self._mvars = {}
+        for c in self.method_calls:
+            st = stmt_of(self.app, c)
+            if isinstance(st, ast.Assign) and st.value is c and len(st.targets) == 1 and isinstance(st.targets[0], ast.Name):
+                ds_, clean = self.defs.of(st.targets[0].id)
+                if not clean or len(ds_) != 1:
+                    raise AnalysisError('Application.dispatch: the local holding the result of route.match_method is re-bound')
+                self._mvars[st.targets[0].id] = c
+            # otherwise the call is part of a larger expression (``if not route.match_method(m):``, ``refused = not
+            # route.match_method(m)``): conditions on that expression are recognised by its text
+        self.method_call = self.method_calls[0]
+        if len(self.method_calls) > 1:
+            for t_, p_ in self.cfg.conds_at_stmt(self.exec_st):
+                if p_ is True and self.is_method_test(t_):
+                    self.method_call = self._mvars.get(t_.id) if isinstance(t_, ast.Name) else \
+                        [c for c in self.method_calls if c is t_ or norm(c) == norm(t_)][0]
+                    break
+        self.method_st = stmt_of(self.app, self.method_call)
+        self.ma_var = ([k for k, v in self._mvars.items() if v is self.method_call] or [None])[0]
         self.redirect_calls = [c for c in walk_body(f) if isinstance(c, ast.Call) and call_name(c) == 'redirect']
         ds = [s for s in stmts_of(f) if isinstance(s, ast.Assign) and isinstance(s.value, ast.Call) and call_name(s.value) == 'DispatchState']
         self.ds_var = norm(ds[0].targets[0]) if ds else 'dispatch_state'
 
-    # predicates on condition tests
+    @staticmethod
+    def _within(node, root):
+        return any(n is node for n in ast.walk(root))
+
+    # -- data flow ---------------------------------------------------------------------------------------
+    def resolve(self, e, depth=0):
+        """Follow a local that has exactly one definition to the defining expression (tuple unpacking included)."""
+        return resolve_local(self.fi.node, e, depth)
+
+    def is_request_attr(self, e, attr):
+        """``e`` is request.<attr> (directly or through single-definition locals)."""
+        return norm(self.resolve(e)) == '%s.%s' % (self.request, attr)
+
+    def fold(self, e):
+        v = self.repo.try_fold(e, self.app, _UNDECIDED)
+        return v
+
+    def conds(self, node):
+        """Refined path conditions holding at the statement that contains ``node``."""
+        st = node if isinstance(node, ast.stmt) else stmt_of(self.app, node)
+        res = None
+        for n in self.cfg.nodes_of(st):
+            if not self.cfg.reachable(n):
+                continue
+            cs = refine_conds(self.cfg, self.defs, n, self.cfg.conds_at(n), self.fold)
+            keyed = dict(((norm(t), p), (t, p)) for t, p in cs)
+            res = keyed if res is None else dict((k, v) for k, v in res.items() if k in keyed)
+        return list((res or {}).values())
+
+    def branch_conds(self, nid, full=False):
+        """What taking branch node ``nid`` says by itself: its test with its polarity, split, named conditions
+        expanded and refined by reaching definitions.  full=True: plus everything that holds on the way there."""
+        key = (nid, full)
+        if key in self._bc:
+            return self._bc[key]
+        nd = self.cfg.nodes[nid]
+        from ..cfg import expand_conds
+        cs = expand_conds([(nd.test, nd.pol)])
+        cs = self.cfg._expand_named(cs, nid)
+        if full:
+            cs = self.cfg.conds_at(nid) + cs
+        res = self._bc[key] = refine_conds(self.cfg, self.defs, nid, cs, self.fold)
+        return res
+
+    # -- predicates on condition tests -------------------------------------------------------------------
+    def nomatch_pol(self, t):
+        """True: ``t`` true means the pattern did not match; False: ``t`` true means it matched; None: unrelated."""
+        k = none_test(t, self.pp_var)
+        return True if k == 'is' else False if k == 'isnot' else None
+
     def is_nomatch(self, t):
-        return norm(t) == '%s is None' % self.pp_var
+        return self.nomatch_pol(t) is True
+
+    def is_method_test(self, t):
+        """``t`` is the result of route.match_method(...): the call itself or the local it is bound to."""
+        if isinstance(t, ast.Name):
+            return t.id in self._mvars
+        return isinstance(t, ast.Call) and any(c is t or norm(c) == norm(t) for c in self.method_calls if c not in self._mvars.values())
 
     def method_ok_conds(self, cs):
         """conditions say the method was admitted"""
-        return has_cond(cs, lambda t: norm(t) == self.ma_var, True) or \
-            has_cond(cs, lambda t: norm(t) == 'not %s' % self.ma_var, False)
+        return has_cond(cs, self.is_method_test, True)
+
+    def branches_where(self, pred, pol):
+        """Branch nodes whose own test (conjunctions / disjunctions split, named conditions expanded, definitions
+        substituted) says ``pred`` holds with polarity ``pol``."""
+        out = []
+        for n in self.cfg.nodes:
+            if n.kind == 'branch' and self.cfg.reachable(n.id) and has_cond(self.branch_conds(n.id), pred, pol):
+                out.append(n.id)
+        return out
+
+    def method_branches(self, pol):
+        return self.branches_where(self.is_method_test, pol)
 
     def matched_conds(self, cs):
-        return has_cond(cs, self.is_nomatch, False) or has_cond(cs, lambda t: norm(t) == '%s is not None' % self.pp_var, True)
+        return has_cond(cs, lambda t: self.nomatch_pol(t) is True, False) or has_cond(cs, lambda t: self.nomatch_pol(t) is False, True)
+
+    def nomatch_branches(self):
+        """Branch nodes taken exactly when the pattern did not match."""
+        return sorted(set(self.branches_where(lambda t: self.nomatch_pol(t) is True, True)) |
+                      set(self.branches_where(lambda t: self.nomatch_pol(t) is False, False)))
 
     def calls_stmt(self, tail, recv=None):
         out = []
